@@ -661,6 +661,12 @@ class PrecipitateBase(GenericModel):
             _, volDG, self._precBetaTemp[p] = dgResult
             Y.drivingForce[0,p] = volDG
             if volDG < 0:
+                #Y starts as a copy of the previous step, so clear the nucleation terms of this phase
+                Y.Rcrit[0,p] = 0
+                Y.Gcrit[0,p] = 0
+                Y.impingement[0,p] = 0
+                Y.nucRate[0,p] = 0
+                Y.Rnuc[0,p] = 0
                 continue
 
             # Critical Gibbs free energy and radius at nucleation barrier
